@@ -161,8 +161,15 @@ def check_matrices(ctx):
             for g in [x for x in ast.walk(il) if isinstance(x, ast.If)]:
                 if util.canon_test(g.test) not in ("''!=%s" % sp_,):
                     problems.append('entries are filled under the condition %s' % src(g.test))
-        if any(isinstance(x, (ast.Break, ast.Continue)) for x in lp.body):
-            problems.append('the reaction loop can skip reactions')
+        fills = [x for x in lp.body if isinstance(x, ast.For)]
+        # each fill loop runs for every reaction: the only condition it may stand under is that its own dictionary is not empty
+        for il_ in fills:
+            d_ = k(src(il_.iter)).replace('.keys()', '')
+            g_ = {x for x in util.guards_of(il_, lp) if x.replace(' ', '') not in (d_, 'len(%s)>0' % d_, '0<len(%s)' % d_, 'len(%s)!=0' % d_, '0!=len(%s)' % d_)}
+            if g_:
+                problems.append('the fill loop over %s is skipped unless %s' % (src(il_.iter), ' and '.join(sorted(g_))))
+        if any(isinstance(x, ast.Break) for x in ast.walk(lp)):
+            problems.append('the reaction loop can stop early')
     ctx.ob('R3.3-matrix-fill', '_create_stochiometric_matrices', not problems, where,
            'matrix[species2index[sp], r] = dict_r[sp] for every species of every reaction; fresh zero matrices of shape (species, reactions)', '; '.join(problems))
 
